@@ -33,6 +33,17 @@ def run(ctx):
                      names=["tadpole", "tadpole_pair", "triangle_tadpole", "sunrise_tadpole"])
     ss += S.generate(ctx, 0, 3 if ctx.quick else 6, routings_per_graph=1, kinds=("uniform",),
                      special=("integer_dod:4", "integer_dod:2", "integer_dod:3", "integer_dod:6", "vacuum_massless", "vacuum_massless", "vacuum") * (1 if ctx.quick else 4))
+    # a remainder that is ALMOST logarithmically divergent (omega = 1e-3 .. 1e-6: exponents 1/omega up to a million): the parameter of the next
+    # edge is xi^(1/omega) whatever the size of the exponent
+    from .. import graphs as G_
+    tiny = []
+    base_cases = [s["case"] for s in ss[:: 7] if len(s["case"]["edges"]) >= 2][: (8 if ctx.quick else 40)]
+    for c0 in base_cases:
+        for delta in (1e-3, 2e-4, 1e-5, 1e-6):
+            t = G_.near_threshold(ctx.rng, c0, delta)
+            if t is not None and t["accepted"] and t["dod"] > 0:
+                t = dict(t); t["name"] = c0["name"] + "+tiny_omega"; t["loops"] = c0["loops"]; tiny.append(t)
+    ss += S.samples_for_cases(ctx, tiny[: (10 if ctx.quick else 60)], 2, kinds=("uniform", "corner"))
     ss += S.samples_for_cases(ctx, S.big_dimension_cases(ctx.rng), 2)      # D = 260 (the rescaling exponent D/2 L beyond a byte) and D = 13
     ss += S.generate(ctx, 0, 2, routings_per_graph=1, kinds=("uniform",), special=("unit_j",) * (3 if ctx.quick else 12))
     S.run(ss)
